@@ -101,7 +101,9 @@ FIXED_IR = {
     "version": "3.0.3", "title": "Verif API",
     "schemas": [["Kind", {"k": "enum", "base": "str", "values": ["aa", "bb"], "null": False}],
                 ["Level", {"k": "enum", "base": "int", "values": [1, 2], "null": False}],
-                ["Leaf", _OBJ([["mike", {"k": "str"}, False], ["level", {"k": "ref", "name": "Level"}, False]])],
+                ["Leaf", _OBJ([["mike", {"k": "str"}, False], ["level", {"k": "ref", "name": "Level"}, False],
+                               # a declaration far longer than any wrapping width, with a description (for docstrings_on_attributes)
+                               ["note", {"k": "str", "default": "lorem ipsum dolor sit amet " * 6, "desc": "a note that is described at some length " * 4}, False]])],
                 ["Alpha", _OBJ([["kind", {"k": "ref", "name": "Kind"}, True], ["leaf", {"k": "ref", "name": "Leaf"}, False],
                                 ["kinds", {"k": "array", "items": {"k": "ref", "name": "Kind"}}, False],
                                 ["when", {"k": "date"}, False]])]],
@@ -137,6 +139,8 @@ def sweep(tier):
         out.append(base(option="post_hooks", hooks=h))
     for m in ("poetry", "pdm", "setup"):
         out.append(base(option="names", meta=m))
+        for proj in ("zqproj-name", "Acme-Billing-SDK", "zqCamelProj", "ZQ-v2-api"):
+            out.append(base(option="names", meta=m, project=proj, package=None))
         out.append(base(option="version", meta=m))
     out.append(base(option="meta", metas=["none", "poetry", "pdm", "setup"]))
     for o in ("path_prefix", "literal_enums", "docstrings", "all_tags"):
@@ -269,11 +273,20 @@ def _opt_names(case, ctx):
     doc, a = _base(case, ctx, meta=meta)
     if a is None:
         return
-    b = gen(doc, cfg={"project_name_override": "zqproj-name", "package_name_override": "zqpkg_name"}, meta=meta)
+    proj = case.get("project", "zqproj-name")
+    pkg_over = case.get("package", "zqpkg_name")
+    cfg = {"project_name_override": proj, **({"package_name_override": pkg_over} if pkg_over else {})}
+    # documented: without a package override the package name is the project name with '-' replaced by '_'
+    want_pkg = pkg_over or proj.replace("-", "_")
+    b = gen(doc, cfg=cfg, meta=meta)
     ctx.evals()
     try:
         if b.exc is not None or not b.accepted:
             ctx.violation("names.same_outcome", {"option": "names"}, repr(b.exc or b.diag_text())[:200])
+            return
+        if not os.path.isdir(os.path.join(b.out, want_pkg)):
+            ctx.violation("names.package_directory_as_documented", {"option": "names", "meta": meta, "package_override": bool(pkg_over)},
+                          f"project {proj!r}: expected package directory {want_pkg!r}, found {sorted(os.listdir(b.out))}")
             return
 
         def subst(snap, proj, pkg):
@@ -287,7 +300,11 @@ def _opt_names(case, ctx):
                     out[k2] = v
             return out
         sa = subst(sut.snapshot(a.out), "verif-api-client", "verif_api_client")
-        sb = subst(sut.snapshot(b.out), "zqproj-name", "zqpkg_name")
+        sb = subst(sut.snapshot(b.out), proj, want_pkg)
+        if proj == want_pkg:
+            # a project name without dashes is its own package name: the two placeholders cannot be told apart
+            sa = {k.replace("<PROJ>", "<PKG>"): (v.replace("<PROJ>", "<PKG>") if isinstance(v, str) else v) for k, v in sa.items()}
+            sb = {k.replace("<PROJ>", "<PKG>"): (v.replace("<PROJ>", "<PKG>") if isinstance(v, str) else v) for k, v in sb.items()}
         if sa != sb:
             diff = sorted(k for k in set(sa) | set(sb) if sa.get(k) != sb.get(k))
             ctx.violation("names.only_rename", {"option": "names", "meta": meta}, str(diff[:5]))
